@@ -211,6 +211,16 @@ pub fn replay(args: &Args) {
         let mut nd_seen = 0usize;
         let mut nd_bad = 0usize;
         let mut failed: Option<String> = None;
+        // every eighth scenario the receiver is a member of a multicast group: the listener report for it is a datagram
+        // the stack sends over 802.15.4 like any other (it carries a hop-by-hop header)
+        if k % 8 == 5 {
+            let r = guarded(|| {
+                let _ = b.iface.join_multicast_group(Ipv6Address::new(0xff02, 0, 0, 0, 0, 0, 1, 3));
+            });
+            if let Err(m) = r {
+                failed = Some(m);
+            }
+        }
         // warm up: neighbor discovery in both directions with a tiny datagram exchange (not part of the scenario)
         {
             let bd = b.addr;
